@@ -15,7 +15,7 @@ Extraction "../ocaml/model.ml"
   NND.new_build_candidates NND.generate_graph_updates NND.generate_leaf_updates
   NND.apply_graph_updates_low_memory NND.apply_graph_updates_high_memory
   NND.thresholds NND.deheap_graph NND.nn_descent
-  Diversify.diversify Diversify.diversify_row Diversify.diversify_csr_row
+  Diversify.diversify Diversify.row_rng Diversify.diversify_row Diversify.diversify_csr_row
   SearchGraph.degree_prune_row SearchGraph.search_graph_chk
   RPTree.make_euclidean_tree RPTree.convert_tree_format RPTree.leaf_rows RPTree.flat_chk RPTree.linked_chk RPTree.descend
   Search.search_one Search.translate Search.fmul32
